@@ -1,5 +1,432 @@
 package vc
 
-func CmdCheck(args []string) int    { return 2 }
-func CmdReplay(args []string) int   { return 2 }
-func CmdSelftest(args []string) int { return 2 }
+// check.go: the per-property driver: vc check Cxx --tier quick|thorough
+
+import (
+	"encoding/json"
+	"flag"
+	"fmt"
+	"os"
+	"path/filepath"
+	"sort"
+	"strconv"
+	"strings"
+	"time"
+)
+
+type PropertyDef struct {
+	ID          string   `json:"id"`
+	Packages    []string `json:"packages"`
+	Funcs       []string `json:"funcs"`
+	Lemmas      []string `json:"lemmas"`
+	Decided     string   `json:"decided"`
+	NotDecided  string   `json:"not_decided"`
+	Assumptions []string `json:"assumptions"`
+	Bounded     []string `json:"bounded"`
+	Replay      string   `json:"replay_family"`
+	Includes    []string `json:"includes"` // other property files whose funcs/lemmas are part of this one
+}
+
+type KnownFinding struct {
+	Property   string `json:"property"`
+	Obligation string `json:"obligation"` // exact obligation name, or prefix ending in '*'
+	What       string `json:"what"`
+	Status     string `json:"status"` // open | fixed
+	Commit     string `json:"commit,omitempty"`
+	Input      string `json:"failing_input,omitempty"`
+}
+
+func loadProperty(verifDir, id string, seen map[string]bool) (*PropertyDef, error) {
+	data, err := os.ReadFile(filepath.Join(verifDir, "properties", id+".json"))
+	if err != nil {
+		return nil, err
+	}
+	var pd PropertyDef
+	if err := json.Unmarshal(data, &pd); err != nil {
+		return nil, fmt.Errorf("%s.json: %v", id, err)
+	}
+	seen[id] = true
+	for _, inc := range pd.Includes {
+		if seen[inc] {
+			continue
+		}
+		sub, err := loadProperty(verifDir, inc, seen)
+		if err != nil {
+			return nil, err
+		}
+		pd.Funcs = append(pd.Funcs, sub.Funcs...)
+		pd.Lemmas = append(pd.Lemmas, sub.Lemmas...)
+		pd.Packages = append(pd.Packages, sub.Packages...)
+		pd.Assumptions = append(pd.Assumptions, sub.Assumptions...)
+	}
+	pd.Funcs = uniq(pd.Funcs)
+	pd.Lemmas = uniq(pd.Lemmas)
+	pd.Packages = uniq(pd.Packages)
+	pd.Assumptions = uniq(pd.Assumptions)
+	return &pd, nil
+}
+
+func uniq(in []string) []string {
+	seen := map[string]bool{}
+	var out []string
+	for _, s := range in {
+		if !seen[s] {
+			seen[s] = true
+			out = append(out, s)
+		}
+	}
+	return out
+}
+
+func fullKey(k string) string {
+	if !strings.Contains(k, "::") {
+		return k
+	}
+	pk := strings.SplitN(k, "::", 2)[0]
+	if strings.HasPrefix(k, "github.com/") || strings.Contains(pk, ".") {
+		return k
+	}
+	if !strings.Contains(pk, "/") && (pk == "math" || pk == "fmt" || pk == "io" || pk == "bytes" || pk == "strings") {
+		return k
+	}
+	return ModulePath + "/" + k
+}
+
+type CheckOutcome struct {
+	Results   []*Result
+	Engine    *Engine
+	Failed    []*Result
+	WallS     float64
+	LoadS     float64
+	GenS      float64
+	SolveS    float64
+	Known     []string
+	Violation []*Result
+}
+
+// RunProperty generates and discharges all obligations of a property against repoDir (+overlay).
+func RunProperty(pd *PropertyDef, repoDir, verifDir string, timeoutS, seed int, overlay map[string][]byte) (*CheckOutcome, error) {
+	t0 := time.Now()
+	pkgs := pd.Packages
+	if len(pkgs) == 0 {
+		pkgs = []string{"./..."}
+	}
+	e, err := Load(repoDir, pkgs, overlay)
+	if err != nil {
+		return nil, err
+	}
+	if err := e.LoadContractsOverlay(filepath.Join(verifDir, "contracts/mirror"), filepath.Join(verifDir, "contracts/trusted"), filepath.Join(verifDir, "spec"), overlay); err != nil {
+		return nil, err
+	}
+	out := &CheckOutcome{Engine: e}
+	out.LoadS = time.Since(t0).Seconds()
+	t1 := time.Now()
+	for _, k := range pd.Funcs {
+		e.VerifyFunc(fullKey(k))
+	}
+	for _, l := range pd.Lemmas {
+		e.VerifyLemma(l)
+	}
+	e.checkConstGlobals()
+	if len(e.Obls) == 0 {
+		e.Obls = append(e.Obls, &Obligation{Name: pd.ID + "#vacuity:no-obligations", Kind: "cover", Failed: "the property generated no obligations"})
+	}
+	out.GenS = time.Since(t1).Seconds()
+	t2 := time.Now()
+	out.Results = SolveAll(e.Obls, timeoutS, 16, seed, "")
+	out.SolveS = time.Since(t2).Seconds()
+	// vacuity: every verified function needs at least one satisfiable exit
+	covered := map[string]bool{}
+	hasCover := map[string]bool{}
+	for _, r := range out.Results {
+		if r.Obl.Cover && r.Obl.Failed == "" {
+			hasCover[r.Obl.Func] = true
+			if r.Status == "sat" {
+				covered[r.Obl.Func] = true
+			}
+		}
+	}
+	for _, r := range out.Results {
+		if r.Obl.Cover {
+			if r.Obl.Failed != "" {
+				out.Failed = append(out.Failed, r)
+			}
+			continue
+		}
+		if !r.Discharged() {
+			out.Failed = append(out.Failed, r)
+		}
+	}
+	var fns []string
+	for f := range hasCover {
+		fns = append(fns, f)
+	}
+	sort.Strings(fns)
+	for _, f := range fns {
+		if !covered[f] {
+			out.Failed = append(out.Failed, &Result{Obl: &Obligation{Name: f + "#vacuity:no-feasible-exit", Kind: "cover", Func: f},
+				Status: "failed", Output: "no exit of the function is reachable under its preconditions (contradictory contract?)"})
+		}
+	}
+	out.WallS = time.Since(t0).Seconds()
+	return out, nil
+}
+
+func loadKnown(verifDir string) []KnownFinding {
+	data, err := os.ReadFile(filepath.Join(verifDir, "known_findings.json"))
+	if err != nil {
+		return nil
+	}
+	var kf []KnownFinding
+	if err := json.Unmarshal(data, &kf); err != nil {
+		fmt.Fprintln(os.Stderr, "known_findings.json:", err)
+		return nil
+	}
+	return kf
+}
+
+func matchKnown(kf []KnownFinding, prop, obl string) *KnownFinding {
+	for i := range kf {
+		k := &kf[i]
+		if k.Property != prop || k.Status != "open" {
+			continue
+		}
+		if k.Obligation == obl || (strings.HasSuffix(k.Obligation, "*") && strings.HasPrefix(obl, strings.TrimSuffix(k.Obligation, "*"))) {
+			return k
+		}
+	}
+	return nil
+}
+
+func CmdCheck(args []string) int {
+	if len(args) < 1 {
+		fmt.Fprintln(os.Stderr, "usage: vc check <Cxx> [--tier quick|thorough]")
+		return 2
+	}
+	id := args[0]
+	fs := flag.NewFlagSet("check", flag.ExitOnError)
+	tier := fs.String("tier", envOr("VERIF_TIER", "quick"), "quick|thorough")
+	repo := fs.String("repo", "/repo", "repository under verification")
+	verif := fs.String("verif", "/verif", "verification directory")
+	fs.Parse(args[1:])
+	seed, _ := strconv.Atoi(os.Getenv("VERIF_SEED"))
+	pd, err := loadProperty(*verif, id, map[string]bool{})
+	if err != nil {
+		fmt.Fprintln(os.Stderr, "cannot load property definition:", err)
+		return 2
+	}
+	timeout := 20
+	if *tier == "thorough" {
+		timeout = 120
+	}
+	oc, err := RunProperty(pd, *repo, *verif, timeout, seed, nil)
+	replayDir := filepath.Join(*verif, "evidence", "replays")
+	os.MkdirAll(replayDir, 0o755)
+	if err != nil {
+		// the tree does not load (does not compile) or a contract file is malformed: undecidable
+		path := filepath.Join(replayDir, id+"-load-error.txt")
+		os.WriteFile(path, []byte("property "+id+": the verification conditions could not be generated\n\n"+err.Error()+"\n"), 0o644)
+		fmt.Printf("VIOLATION property=%s replay=%s obligation=load no-failing-input-found\n", id, path)
+		writeEvidence(*verif, pd, *tier, seed, nil, 1, []string{"load error: " + firstLines(err.Error(), 3)}, nil)
+		return 1
+	}
+	kf := loadKnown(*verif)
+	violations := 0
+	var knownLines []string
+	selftest := map[string]interface{}{}
+	for _, r := range oc.Failed {
+		if k := matchKnown(kf, id, r.Obl.Name); k != nil {
+			line := fmt.Sprintf("KNOWN-FINDING: property=%s %s [%s]", id, k.What, r.Obl.Name)
+			dup := false
+			for _, l := range knownLines {
+				if l == line {
+					dup = true
+				}
+			}
+			if !dup {
+				knownLines = append(knownLines, line)
+				fmt.Println(line)
+			}
+			continue
+		}
+		violations++
+		path, confirmed := WriteReplay(*verif, *repo, id, pd, r, oc.Engine)
+		suffix := ""
+		if !confirmed {
+			suffix = " no-failing-input-found"
+		}
+		fmt.Printf("VIOLATION property=%s replay=%s obligation=%s%s\n", id, path, r.Obl.Name, suffix)
+	}
+	if *tier == "thorough" {
+		selftest = RunSelftest(*verif, *repo, id, pd, timeout)
+		if n, ok := selftest["escaped"].(int); ok && n > 0 {
+			// a mutant that escapes means the check lost strength: report, but it is not a violation of the property
+			fmt.Printf("WARNING property=%s selftest: %d must-fail mutants escaped\n", id, n)
+		}
+	}
+	writeEvidence(*verif, pd, *tier, seed, oc, violations, knownLines, selftest)
+	nObl, nDis := countObls(oc)
+	fmt.Printf("property %s tier=%s: %d obligations, %d discharged, %d violations, %d known findings, %.1fs (load %.1f, generate %.1f, solve %.1f)\n",
+		id, *tier, nObl, nDis, violations, len(knownLines), oc.WallS, oc.LoadS, oc.GenS, oc.SolveS)
+	if violations > 0 {
+		return 1
+	}
+	return 0
+}
+
+func envOr(k, d string) string {
+	if v := os.Getenv(k); v != "" {
+		return v
+	}
+	return d
+}
+
+func countObls(oc *CheckOutcome) (n, d int) {
+	for _, r := range oc.Results {
+		if r.Obl.Cover {
+			continue
+		}
+		n++
+		if r.Discharged() {
+			d++
+		}
+	}
+	return
+}
+
+func writeEvidence(verifDir string, pd *PropertyDef, tier string, seed int, oc *CheckOutcome, violations int, known []string, selftest map[string]interface{}) {
+	ev := map[string]interface{}{
+		"property_id": pd.ID,
+		"tier":        tier,
+		"seed":        seed,
+		"level":       "proof",
+		"violations":  violations,
+	}
+	cov := map[string]interface{}{
+		"checker_cmd": fmt.Sprintf("/verif/bin/vc check %s --tier %s  (go/ssa VC generator over /repo's working tree; z3 5.1.0, cvc5 1.0, z3 4.8.12 raced)", pd.ID, tier),
+	}
+	assumptions := append([]string{}, pd.Assumptions...)
+	if oc != nil {
+		n, d := countObls(oc)
+		cov["obligations"] = n
+		cov["discharged"] = d
+		bySolver := map[string]int{}
+		byKind := map[string]int{}
+		var solverS float64
+		var per []map[string]interface{}
+		covers, coverSat := 0, 0
+		var samples []map[string]interface{}
+		for _, r := range oc.Results {
+			if r.Obl.Cover {
+				covers++
+				if r.Status == "sat" {
+					coverSat++
+				}
+				continue
+			}
+			s := r.Solver
+			if k := strings.Index(s, " "); k > 0 {
+				s = s[:k]
+			}
+			bySolver[s]++
+			byKind[r.Obl.Kind]++
+			solverS += r.Seconds
+			if len(per) < 4000 {
+				per = append(per, map[string]interface{}{"name": r.Obl.Name, "kind": r.Obl.Kind, "where": r.Obl.Where, "status": r.Status,
+					"solver": r.Solver, "seconds": round3(r.Seconds), "smt2_bytes": r.Size})
+			}
+		}
+		// three samples: the first post obligation of three different functions
+		seenFn := map[string]bool{}
+		for _, r := range oc.Results {
+			if r.Obl.Kind == "post" && !seenFn[r.Obl.Func] && len(samples) < 3 && r.Obl.Clause != "" {
+				seenFn[r.Obl.Func] = true
+				samples = append(samples, map[string]interface{}{"obligation": r.Obl.Name, "contract_clause": r.Obl.Clause, "where": r.Obl.Where,
+					"path_assumptions": len(r.Obl.Assume), "result": r.Status, "solver": r.Solver})
+			}
+		}
+		if len(samples) == 0 {
+			for _, r := range oc.Results {
+				if !r.Obl.Cover && len(samples) < 3 {
+					samples = append(samples, map[string]interface{}{"obligation": r.Obl.Name, "where": r.Obl.Where, "result": r.Status, "solver": r.Solver})
+				}
+			}
+		}
+		var funcs []map[string]interface{}
+		var names []string
+		for n := range oc.Engine.FuncStats {
+			names = append(names, n)
+		}
+		sort.Strings(names)
+		for _, n := range names {
+			st := oc.Engine.FuncStats[n]
+			funcs = append(funcs, map[string]interface{}{"name": st.Name, "at": st.Pos, "paths": st.Paths})
+		}
+		cov["functions_under_contract"] = funcs
+		cov["functions"] = len(funcs)
+		cov["by_kind"] = byKind
+		cov["discharged_by_back_end"] = bySolver
+		cov["solver_time_s"] = round3(solverS)
+		cov["covers_run"] = covers
+		cov["covers_sat"] = coverSat
+		cov["per_obligation"] = per
+		cov["samples"] = samples
+		cov["timing_s"] = map[string]interface{}{"load": round3(oc.LoadS), "generate": round3(oc.GenS), "solve": round3(oc.SolveS)}
+		tb := []string{"T-GEN: the VC generator (/verif/tool), its SMT encoding of the Go subset, the spec functions in /verif/spec, the solvers",
+			"T-SSA: golang.org/x/tools/go/ssa v0.29.0 translates the Go source faithfully"}
+		var tu []string
+		for k := range oc.Engine.TrustedUse {
+			tu = append(tu, k)
+		}
+		sort.Strings(tu)
+		for _, k := range tu {
+			tb = append(tb, "assumed contract: "+k)
+		}
+		var in []string
+		for k := range oc.Engine.Intrinsics {
+			in = append(in, k)
+		}
+		sort.Strings(in)
+		for _, k := range in {
+			tb = append(tb, "built-in model (A-LIB): "+shortKey(k))
+		}
+		cov["trusted_base"] = tb
+		var ab []string
+		for k := range oc.Engine.Abstract {
+			ab = append(ab, k)
+		}
+		sort.Strings(ab)
+		cov["abstracted"] = ab
+		cov["notes"] = oc.Engine.Notes
+		cov["bounded"] = pd.Bounded
+		cov["decided"] = pd.Decided
+		cov["not_decided"] = pd.NotDecided
+		assumptions = append(assumptions,
+			"A-ARCH: 64-bit little-endian target (int is 64 bits)",
+			"A-SIZE: slices and strings handed to a function hold at most 2^36 elements; no slice exceeds 2^40; the output stream stays below 2^40 bytes",
+			"A-RECV: method receivers are non-nil",
+			"integers are bit-vectors with Go's wrap-around semantics (never mathematical integers); termination is proved only where a decreases clause is listed")
+	} else {
+		cov["obligations"] = 1
+		cov["discharged"] = 0
+		cov["trusted_base"] = []string{}
+	}
+	if len(known) > 0 {
+		cov["known_findings_matched"] = known
+	}
+	if selftest != nil && len(selftest) > 0 {
+		cov["selftest"] = selftest
+	}
+	ev["coverage"] = cov
+	ev["assumptions"] = uniq(assumptions)
+	if oc != nil {
+		ev["wall_s"] = round3(oc.WallS)
+	} else {
+		ev["wall_s"] = 0.0
+	}
+	data, _ := json.MarshalIndent(ev, "", " ")
+	os.MkdirAll(filepath.Join(verifDir, "evidence"), 0o755)
+	os.WriteFile(filepath.Join(verifDir, "evidence", pd.ID+".json"), data, 0o644)
+}
+
+func round3(f float64) float64 { return float64(int(f*1000+0.5)) / 1000 }
